@@ -143,15 +143,34 @@ Definition obs_eqb (a b : obs) : bool :=
   && list_eqb event_eqb (ob_log a) (ob_log b)
   && match ob_outcome a with
      | OPanic | OOther => true      (* after a panic only outcome and log prefix are compared *)
-     | OErr => list_eqb field_eqb (ob_fields a) (ob_fields b)
-       (* lookups after a FAILED start retry creations on property state left dirty by the failed attempt
-          (Injects accumulated twice, half-written fields): outside the model, not compared *)
+     | OErr => list_eqb field_eqb (ob_fields a) (ob_fields b)    (* the lookups: [failed_lookups_eqb] *)
      | OOk => list_eqb field_eqb (ob_fields a) (ob_fields b)
               && list_eqb ltoken_eqb (ob_lookups a) (ob_lookups b)
               && list_eqb event_eqb (ob_logafter a) (ob_logafter b)
      end.
 
-Definition wcheck (c : wcase) : bool := obs_eqb (model_obs repaired c) (w_obs c).
+(* Lookups after a FAILED start retry creations on the state the failed attempt left behind.  The model carries
+   that state (stored Injects, fields, registry) but records dependents per component where the code records them
+   per Meta object (per version); with substituting post-processors the stale check of a retry can therefore
+   differ, so those lookups are compared for scenarios without substitution only. *)
+Definition scn_no_subst (s : scenario) : bool :=
+  forallb (fun cc => match c_proc cc with
+                     | Some (_, PUser early after) =>
+                       forallb (fun x => match snd x with ENone => true | EFresh => false end) early
+                       && forallb (fun x => match snd x with ANone => true | _ => false end) after
+                     | _ => true
+                     end) (s_pop s).
+
+Definition failed_lookups_eqb (s : scenario) (a b : obs) : bool :=
+  match ob_outcome a with
+  | OErr => if scn_no_subst s
+            then list_eqb ltoken_eqb (ob_lookups a) (ob_lookups b) && list_eqb event_eqb (ob_logafter a) (ob_logafter b)
+            else true
+  | _ => true
+  end.
+
+Definition wcheck (c : wcase) : bool :=
+  let m := model_obs repaired c in obs_eqb m (w_obs c) && failed_lookups_eqb (w_scn c) m (w_obs c).
 
 Definition wmismatches (cs : list wcase) : list nat :=
   map w_id (filter (fun c => negb (wcheck c)) cs).
